@@ -728,6 +728,7 @@ fn execute_inner(ctx: &mut Ctx, lines: &[String]) -> Vec<String> {
             match t.as_slice() {
                 ["SPEC", rest @ ..] if rest.len() == 5 => f.spec = parse_spec(rest),
                 ["CFG", rest @ ..] if rest.len() == 5 => f.cfg = parse_cfg(rest),
+                ["RESTART", rest @ ..] if rest.len() == 5 => f.cfg = parse_cfg(rest),
                 _ => {}
             }
         }
@@ -1107,11 +1108,10 @@ fn execute_inner(ctx: &mut Ctx, lines: &[String]) -> Vec<String> {
                 h.unflushed = false;
                 f.cfg = parse_cfg(rest);
                 h.restarts += 1;
-                if f.cfg.rot.is_none() && !f.cfg.append {
-                    // documented truncation of a non-rotated file that is re-opened without append
-                    // (it happens when the new logger writes for the first time)
-                    h.trunc_pending = true;
-                }
+                // documented truncation of a non-rotated file that is re-opened without append: it
+                // happens when the new logger writes for the first time — a run that never writes
+                // truncates nothing, and the next run decides anew
+                h.trunc_pending = f.cfg.rot.is_none() && !f.cfg.append;
                 let _ = ech.new_events();
                 "ok".into()
             }
